@@ -105,6 +105,7 @@ def judge_flat_xml(doc, tmpdir):
         root = etree.fromstring(data)
     except etree.XMLSyntaxError as e:
         return [("flat-xml:not-well-formed", {"exc": repr(e)})]
+    out += DL.flat_structure_issues(st, data)
     flat_paras = set(DL.paragraph_texts(data))
     for name in ("content.xml", "styles.xml"):
         if name in st:
